@@ -102,21 +102,26 @@ def parse_listing(text):
         if txt[0] == 'PADDING':
             continue
         shown = None
-        if txt[0] == 'DATA':
-            d = data(int(txt[1])); shown = s32(int(txt[1]))
-        elif txt[0] in ('FUNC', 'PROC'):
-            d = lab(txt[1], txt[0])
-        elif txt[0] == 'OPR':
-            d = opr(txt[1])
-        elif txt[0] in OPS:
-            if re.match(r'[A-Za-z_]', txt[1]):
-                d = ref(txt[0], txt[1])
-                if len(txt) > 2:
-                    shown = int(txt[2].strip('()'))
+        try:
+            if txt[0] == 'DATA':
+                d = data(int(txt[1])); shown = s32(int(txt[1]))
+            elif txt[0] in ('FUNC', 'PROC'):
+                d = lab(txt[1], txt[0])
+            elif txt[0] == 'OPR':
+                d = opr(txt[1])
+            elif txt[0] in OPS:
+                if re.match(r'[A-Za-z_]', txt[1]):
+                    d = ref(txt[0], txt[1])
+                    if len(txt) > 2:
+                        shown = int(txt[2].strip('()'))
+                else:
+                    d = imm(txt[0], int(txt[1])); shown = s32(int(txt[1]))
             else:
-                d = imm(txt[0], int(txt[1])); shown = s32(int(txt[1]))
-        else:
-            d = lab(txt[0])
+                d = lab(txt[0])
+            if len(txt) > 3 or (len(txt) > 2 and d['k'] != 'ref'):
+                raise ValueError("trailing text")
+        except (ValueError, KeyError, IndexError):
+            d = {'k': 'malformed', 'text': m.group(2)[:80]}      # a line no directive prints like: the listing then does not show the source's directives
         prog.append(d)
         lines.append({'off': off, 'size': size, 'shown': shown if shown is not None else 0, 'has': shown is not None})
     return prog, lines, total
